@@ -375,7 +375,14 @@ def gen_cb_task(rng, i, quick):
         t["kinds"] = [k1, k2]
         t["V"], t["W"] = qgen.cayley_unitary(rng, d, True), qgen.cayley_unitary(rng, d, True)
     elif kind == "herm":
-        t["J"] = rand_herm(rng, d * d)
+        if (i // 8) % 2 == 1:
+            # trace-preserving, Hermiticity-preserving, generally not CP: (1+a) Phi_1 - a Phi_2
+            a = float(rng.choice([0.25, 0.5, 1.0, 2.0]))
+            t["J"] = (1 + a) * choi_of(gen_channel(rng, d, str(rng.choice(["unitary", "mixture", "stinespring"])))) \
+                - a * choi_of(gen_channel(rng, d, str(rng.choice(["unitary", "mixture", "stinespring"]))))
+            t["tp_noncp"] = a
+        else:
+            t["J"] = rand_herm(rng, d * d)
         t["c_real"] = float(rng.choice([-3.0, -0.5, 2.0, 0.25]))
         t["c_cplx"] = complex(float(rng.integers(-3, 4)), float(rng.integers(1, 4))) / 2
     elif kind == "cp":
@@ -812,6 +819,19 @@ def run(ctx, model_ok=True):
     cb_tasks = [{"d": 2, "kind": "cp", "id": -1, "K": [np.array([[1, 0], [0, 0]], dtype=complex), np.array([[0, 1], [0, 0]], dtype=complex),
                                                          np.array([[0, 0], [1, 0]], dtype=complex), np.array([[0, 0], [0, 1]], dtype=complex)]},
                 {"d": 2, "kind": "cp", "id": -2, "K": [np.sqrt(2) * np.eye(2, dtype=complex)]}]
+    # trace-preserving maps that are not completely positive (the cb norm of a trace-preserving map is 1 only when it is CP):
+    # the transpose map (Choi = SWAP, cb trace norm d) and affine combinations (1+a) Phi_1 - a Phi_2 of channels
+    for d in (2, 3):
+        sw = np.zeros((d * d, d * d), dtype=complex)
+        for a in range(d):
+            for b in range(d):
+                sw[a * d + b, b * d + a] = 1.0
+        cb_tasks.append({"d": d, "kind": "herm", "id": -10 - d, "J": sw, "c_real": -0.5, "c_cplx": complex(1.0, 1.5)})
+    Zk = [np.diag([1.0, -1.0]).astype(complex)]
+    Xk = [np.array([[0, 1], [1, 0]], dtype=complex)]
+    Ik = [np.eye(2, dtype=complex)]
+    cb_tasks.append({"d": 2, "kind": "herm", "id": -20, "J": 2 * choi_of(Ik) - choi_of(Zk), "c_real": 2.0, "c_cplx": complex(-0.5, 1.0)})
+    cb_tasks.append({"d": 2, "kind": "herm", "id": -21, "J": 1.5 * choi_of(Xk) - 0.5 * choi_of(Zk), "c_real": -3.0, "c_cplx": complex(1.0, 0.5)})
     n_cb = 64 if quick else 480
     for i in range(n_cb):
         cb_tasks.append(gen_cb_task(rng, i, quick))
